@@ -15,7 +15,7 @@ from ._pairs import compare_all, V
 
 PID = "C09"
 LEVEL = "model_checking"
-WITNESSES = ["compositions", "cut_inside_season", "cut_at_season_jump", "overshoot_call", "dedup_edges", "final_tables_compared", "reused_instance", "call_ends_exactly_at_termination", "numpy_step_counts", "weather_reassigned_between_calls", "final_call_with_process_outputs"]
+WITNESSES = ["compositions", "cut_inside_season", "cut_at_season_jump", "overshoot_call", "dedup_edges", "final_tables_compared", "reused_instance", "call_ends_exactly_at_termination", "numpy_step_counts", "weather_reassigned_between_calls", "final_call_with_process_outputs", "continue_flag_not_the_singleton_false"]
 NONTRIVIAL = ["cut_at_season_jump", "overshoot_call", "dedup_edges", "reused_instance", "call_ends_exactly_at_termination"]
 
 CONFIGS = {
@@ -95,6 +95,11 @@ def scenarios(tier, seed=0):
     for name in names[:3]:
         comps = list(compositions(n))
         yield {"kind": "brute", "config": name + "@short", "n": n, "parts": [list(c) for c in comps[:: (16 if q else 4)]], "numpy_steps": True}
+    # the "do not re-initialise" flag given as numpy.False_ (an element of a boolean array, the result of i == 0 on a numpy integer) or 0
+    for name in names[:3]:
+        comps = list(compositions(n))
+        for flag in ("np_false", "zero"):
+            yield {"kind": "brute", "config": name + "@short", "n": n, "parts": [list(c) for c in comps[:: (16 if q else 4)]], "falsy_flag": flag}
     for name in names[:3]:
         comps = list(compositions(n))
         yield {"kind": "brute", "config": name + "@short@lead", "n": n, "parts": [list(c) for c in comps[:: (16 if q else 4)]], "reassign_weather": True}
@@ -209,7 +214,11 @@ def run(scn):
                     for ci, k in enumerate(parts):
                         # step counts as numpy integers (np.diff of observation days, rng.integers ...) are as valid as Python ints
                         kk = __import__("numpy").int64(k) if scn.get("numpy_steps") else k
-                        m.run_model(num_steps=kk, initialize_model=bool(scn.get("reuse")) and ci == 0)
+                        init = bool(scn.get("reuse")) and ci == 0
+                        if scn.get("falsy_flag") and not init:
+                            init = __import__("numpy").False_ if scn["falsy_flag"] == "np_false" else 0
+                            wit["continue_flag_not_the_singleton_false"] = wit.get("continue_flag_not_the_singleton_false", 0) + 1
+                        m.run_model(num_steps=kk, initialize_model=init)
                         done += k
                         res["transitions"] += k
                         res["evals"] += 1
